@@ -99,6 +99,15 @@ class EngineE:
             if size < 2:
                 shape = [2] + shape[1:]
                 size = int(np.prod(shape))
+            if g.random() < 0.1:
+                shape = g.choice([[2048, 2048, 2048], [70000, 70000], [1000, 1000, 1000, 1000]])
+                size = int(np.prod([int(v) for v in shape]))
+                step["shape"] = shape
+                step["nonzeros"] = g.randint(1, 6)
+                step["density"] = None
+                if op == "sp_from_function":
+                    step["fn"] = g.choice(["arange_plus", "ones", "random_sample"])
+                return step
             step["shape"] = shape
             mode = g.choice(["count", "count", "density"])
             if mode == "count":
@@ -112,9 +121,18 @@ class EngineE:
                 step["fn"] = g.choice(["arange_plus", "ones", "random_sample"])
         elif op == "from_aggregator":
             shape = self._shape(g, smax=3)
-            positions = list(itertools.product(*[range(s) for s in shape]))
-            k = g.randint(1, min(4, len(positions)))
-            chosen = g.sample(positions, k)
+            huge = g.random() < 0.2
+            if huge:
+                # sparse tensors of huge declared shape with a handful of entries are ordinary use
+                shape = g.choice([[2048, 2048, 2048], [70000, 70000], [2**21, 2**21, 2**21], [3, 2**40], [1290, 1290, 1291]])
+                corner = [[0] * len(shape), [s - 1 for s in shape], [s // 2 for s in shape], [s // 2 if i else 0 for i, s in enumerate(shape)], [1] + [0] * (len(shape) - 1)]
+                k = g.randint(2, 4)
+                chosen = [tuple(c) for c in g.sample(corner, k)]
+                step["subs_dtype"] = g.choice(["int32", "int64"]) if max(shape) < 2**31 else "int64"
+            else:
+                positions = list(itertools.product(*[range(s) for s in shape]))
+                k = g.randint(1, min(4, len(positions)))
+                chosen = g.sample(positions, k)
             rows = []
             for p in chosen:
                 for _ in range(weighted(g, [(1, 4), (2, 3), (3, 2), (4, 1)])):
@@ -132,7 +150,7 @@ class EngineE:
                         vals[j] = 0.0
             step["subs"] = rows
             step["vals"] = vals
-            step["shape"] = g.choice([None, shape, [s + g.randint(0, 1) for s in shape]])
+            step["shape"] = shape if huge else g.choice([None, shape, [s + g.randint(0, 1) for s in shape]])
             step["reducer"] = g.choice(["sum", "sum", "default", "min", "max", "mean", "np.max", "np.sum", "prod"])
         else:  # k_from_function
             step["shape"] = self._shape(g)
@@ -424,9 +442,11 @@ class EngineE:
         kw: Dict[str, Any] = {}
         if red != "default":
             kw["function_handle"] = {"np.max": np.max, "np.sum": np.sum}.get(red, red)
-        subs = np.array(rows, dtype=int).reshape(len(rows), nd)
+        subs = np.array(rows, dtype=step.get("subs_dtype", "int64")).reshape(len(rows), nd)
         v = np.array(vals, dtype=float).reshape(-1, 1)
         subs0, v0 = subs.copy(), v.copy()
+        if max(shape) > 10**4:
+            res.bump("probe:huge_declared_shape")
         S = ttb.sptensor.from_aggregator(subs, v, None if step["shape"] is None else shape, **kw)
         p = wellformed(S, shape)
         if p:
